@@ -517,6 +517,19 @@ def run(ctx):
         ok = bool(news) and bool(acc)
         ctx.ob("C12.R3b", L.short(fn)[:120], ok, fn.loc,
                "units are heap objects owned through unique_ptr (stable address while the unit list grows) and the accessor is taken from the unit")
+        # objects may be created from several threads: the unit list only grows under the manager's mutex
+        live = ig.live_nodes()
+        grows = [n for n in evs if n.id in live and n.ev["e"] == "call" and n.ev.get("name") in ("emplace_back", "push_back") and
+                 this_field(n.ev.get("this"), "_units")]
+        locks = [n for n in evs if n.id in live and n.ev["e"] == "ctor" and
+                 re.match(r"^std::(lock_guard|unique_lock|scoped_lock)<", n.ev.get("type", "")) and
+                 any(this_field(a, "_mutex") for a in n.ev.get("args", []))]
+        unlocks = [n for n in evs if n.id in live and n.ev["e"] == "dtor" and
+                   re.match(r"^std::(lock_guard|unique_lock|scoped_lock)<", n.ev.get("type", ""))]
+        n3 += 1
+        ctx.ob("C12.R3d", L.short(fn)[:120], bool(grows) and bool(locks) and all(
+            ig.dominated_by(g, locks) and not any(ig.path_exists(u, g, avoiding=locks) for u in unlocks) for g in grows), fn.loc,
+            "the unit list is extended without the manager's mutex held (create_object is callable from several threads)")
     ctx.floor("C12.R3", n3, 12, "manager / unit / accessor functions")
 
     # ---------------------------------------------------------------- R4 metadata siblings
